@@ -72,6 +72,8 @@ var msgPool = []string{
 	"back\\slash", "uni sep é", "<html>&amp;", "key=value", " lead", "trail ", "{\"json\":1}",
 }
 
+var hugeMsg = strings.Repeat("0123456789abcdef", 4500) // 72 000 bytes
+
 var keyPool = []string{"k", "key two", "a.b", "q\"k", "", "n\nk", "ü", "level", "msg", "time"}
 
 var levels = []slog.Level{slog.LevelDebug, slog.LevelInfo, slog.LevelWarn, slog.LevelError, slog.Level(-8), slog.Level(2), slog.Level(5), slog.Level(7), slog.Level(9), slog.Level(12)}
@@ -139,6 +141,7 @@ func run(rc *kernel.RunCtx) {
 	var opts *slog.HandlerOptions
 	cfgLevel := slog.LevelInfo
 	removeTime := false
+	elideBuiltins := false
 	switch tp.Choose(4) {
 	case 0:
 		// nil options
@@ -148,7 +151,18 @@ func run(rc *kernel.RunCtx) {
 			cfgLevel = []slog.Level{slog.LevelDebug, slog.LevelInfo, slog.LevelWarn, slog.LevelError, slog.Level(-8), slog.Level(6)}[tp.Choose(6)]
 			opts.Level = cfgLevel
 		}
-		if tp.Bool(1, 2) {
+		if tp.Bool(1, 6) {
+			// A ReplaceAttr that elides all built-in attributes: a record
+			// without attributes then renders to an empty text line.
+			opts.ReplaceAttr = func(groups []string, a slog.Attr) slog.Attr {
+				if len(groups) == 0 && (a.Key == slog.TimeKey || a.Key == slog.LevelKey || a.Key == slog.MessageKey) {
+					return slog.Attr{}
+				}
+
+				return a
+			}
+			elideBuiltins = true
+		} else if tp.Bool(1, 2) {
 			removeTime = true
 			// Like slogutil's own ReplaceAttr, but total: slogutil.ReplaceLevel
 			// panics on a user attribute named "level" whose value is not a
@@ -167,6 +181,13 @@ func run(rc *kernel.RunCtx) {
 		}
 	}
 	_ = removeTime
+	// Records normally carry a unique "id" attribute; some runs do without,
+	// so that records with no attributes at all occur (lines are compared as
+	// a multiset, which does not need uniqueness).
+	withID := !tp.Bool(1, 4)
+	if elideBuiltins {
+		withID = tp.Bool(1, 2)
+	}
 
 	root := &node{h: slogutil.NewJSONHybridHandler(w, opts), name: "h0"}
 	nodes := []*node{root}
@@ -248,9 +269,21 @@ func run(rc *kernel.RunCtx) {
 			lvl := levels[tp.Choose(len(levels))]
 			nextID++
 			st.id = nextID
-			r := slog.NewRecord(t0, lvl, msgPool[tp.Choose(len(msgPool))], 0)
-			r.AddAttrs(slog.Int("id", st.id))
-			for a := tp.Choose(8); a > 0; a-- {
+			msg := msgPool[tp.Choose(len(msgPool))]
+			if tp.Bool(1, 48) {
+				// A line far beyond the initial buffer estimate.
+				msg = hugeMsg
+				rc.Stats.Probe("huge-record")
+			}
+			r := slog.NewRecord(t0, lvl, msg, 0)
+			if withID {
+				r.AddAttrs(slog.Int("id", st.id))
+			}
+			nAttrs := tp.Choose(8)
+			if !withID && tp.Bool(1, 2) {
+				nAttrs = 0
+			}
+			for a := nAttrs; a > 0; a-- {
 				r.AddAttrs(genAttr(tp, 0))
 			}
 			st.rec = r
